@@ -71,7 +71,9 @@ def ns_snapshot(c):
 
 def snapshot(doc):
     """everything observable that an export / a derived object must not change"""
-    return (ordered(doc), ns_snapshot(doc), [ns_snapshot(b) for b in getattr(doc, "bundles", ())])
+    conts = [doc] + list(getattr(doc, "bundles", ()))
+    links = tuple(all(r.bundle is c for r in c.get_records()) for c in conts)   # records still belong to their container
+    return (ordered(doc), ns_snapshot(doc), [ns_snapshot(b) for b in getattr(doc, "bundles", ())], links)
 
 
 def as_sets(c):
